@@ -1,6 +1,7 @@
 package main
 
 import (
+	"time"
 	"bytes"
 	"compress/gzip"
 	"context"
@@ -29,6 +30,7 @@ const (
 
 type e2eConfig struct {
 	Service      string // libraryService or contentService
+	Idem         bool   // register the variant of the schema whose side-effect-free methods are declared IDEMPOTENT
 	Protocols    []vanguard.Protocol
 	Codecs       []string // nil = default
 	Compressions []string // nil = default, empty non-nil = none
@@ -60,10 +62,12 @@ func (c e2eConfig) build(backend http.Handler, unknown http.Handler) (*vanguard.
 		opts = append(opts, vanguard.WithMaxGetURLBytes(c.MaxGet))
 	}
 	var svc *vanguard.Service
-	switch schemaMode {
-	case 1:
+	switch {
+	case c.Idem:
+		svc = vanguard.NewServiceWithSchema(idemServiceDesc(c.Service), backend, opts...)
+	case schemaMode == 1:
 		svc = vanguard.NewServiceWithSchema(dynamicServiceDesc(c.Service, 1), backend, opts...)
-	case 2:
+	case schemaMode == 2:
 		opts = append(opts, vanguard.WithTypeResolver(emptyResolver{}))
 		svc = vanguard.NewServiceWithSchema(dynamicServiceDesc(c.Service, 2), backend, opts...)
 	default:
@@ -472,6 +476,15 @@ func runScenario(cfg e2eConfig, req clientReq, script []action, unknownScript []
 	return runOn(tc, req, &res)
 }
 
+// suiteAbort is raised when the tree under test has wedged several times; main recovers it.
+type suiteAbort struct{}
+
+var hangCount int
+var hangs []string // one description per request whose ServeHTTP did not return
+var lateWrites []string
+var canaryInRunOn = true // off while requests run concurrently (checked when the batch is over)
+var hangTimeout = 15 * time.Second
+
 func runOn(tc http.Handler, req clientReq, res *scenarioResult) scenarioResult {
 	rec := &recorder{hdr: http.Header{}}
 	res.Rec = rec
@@ -482,7 +495,13 @@ func runOn(tc http.Handler, req clientReq, res *scenarioResult) scenarioResult {
 		res.BadTarget = true
 		return *res
 	}
-	func() {
+	if hangCount >= 3 {
+		// the tree under test wedges: stop the suite, what was observed so far is reported
+		panic(suiteAbort{})
+	}
+	done := make(chan struct{})
+	go func() {
+		defer close(done)
 		defer func() {
 			if r := recover(); r != nil {
 				res.Panic = fmt.Sprint(r)
@@ -491,6 +510,23 @@ func runOn(tc http.Handler, req clientReq, res *scenarioResult) scenarioResult {
 		}()
 		tc.ServeHTTP(rec, hr)
 	}()
+	select {
+	case <-done:
+		if canaryInRunOn {
+			// C14/C15: nothing may be written through a reference to a buffer that went back to the pool
+			if n := vanguard.VerifPoolCheckReleased(); n > 0 {
+				lateWrites = append(lateWrites, fmt.Sprintf("%d pooled buffer(s) were written to after their release during %s %s %v", n, req.Method, req.Target, req.Headers))
+			}
+		}
+	case <-time.After(hangTimeout):
+		// C11: ServeHTTP must return; the goroutine is abandoned (it may spin for ever)
+		hangCount++
+		hung := &recorder{hdr: http.Header{}}
+		res.Rec = hung
+		res.Panic = fmt.Sprintf("hang: ServeHTTP did not return within %s", hangTimeout)
+		hangs = append(hangs, fmt.Sprintf("%s %s %v did not return within %s", req.Method, req.Target, req.Headers, hangTimeout))
+		return *res
+	}
 	rec.afterReturn = true
 	if res.Backend.ctx != nil {
 		res.CtxDone = res.Backend.ctx.Err() != nil
